@@ -36,7 +36,7 @@ def rewind_on_stream_retry(ctx):
     ctx.ob(f, f'invoke_progress_callbacks({norm(c.args[0])}, {norm(amt)})', ok, why)
     # the chunk length that advances the cursor is the chunk that was read through the progress stream
     srp = [x for x in ast.walk(rl.try_) if isinstance(x, ast.Call) and norm(x.func) == 'StreamReaderProgress']
-    ok = len(srp) == 1 and len(srp[0].args) == 2 and norm(srp[0].args[1]) == norm(c.args[0]) and "['Body']" in norm(srp[0].args[0])
+    ok = len(srp) == 1 and norm(q.argn(srp[0], 'callbacks', 1)) == norm(c.args[0]) and "['Body']" in norm(q.argn(srp[0], 'stream', 0))
     ctx.ob(f, 'StreamReaderProgress(response[Body], callbacks) per attempt, same callbacks as the rewind', ok, 'reads and rewind must report to the same callbacks')
     adv = [n for n in ast.walk(rl.try_) if isinstance(n, ast.AugAssign) and isinstance(n.target, ast.Name) and n.target.id in cursors]
     ok = len(adv) == 1 and isinstance(q.in_loop(adv[0]), ast.For) and norm(adv[0].value) == f'len({norm(q.in_loop(adv[0]).target)})'
@@ -129,7 +129,13 @@ def suppressed_while_signing(ctx):
     for fn, meth in (('signal_not_transferring', 'signal_not_transferring'), ('signal_transferring', 'signal_transferring')):
         g = ctx.func(f'utils.{fn}')
         cs = [c for c in own_calls(g.node) if isinstance(c.func, ast.Attribute) and c.func.attr == meth]
-        ok = len(cs) == 1 and any("operation_name in ['PutObject', 'UploadPart']" in t and pol for t, pol in q.guard_texts(cs[0]))
+        def both_ops(e):
+            for n in ast.walk(e):
+                if isinstance(n, ast.Compare) and len(n.ops) == 1 and isinstance(n.ops[0], ast.In) and isinstance(n.comparators[0], (ast.Tuple, ast.List, ast.Set)) \
+                        and {x.value for x in n.comparators[0].elts if isinstance(x, ast.Constant)} == {'PutObject', 'UploadPart'} and len(n.comparators[0].elts) == 2:
+                    return True
+            return False
+        ok = len(cs) == 1 and any(both_ops(e) and pol for e, pol in q.guards(cs[0]))
         ctx.ob(g, f'{fn}: body.{meth}() for PutObject/UploadPart', ok, 'the toggle must reach upload bodies of both operations')
     for meth, target in (('signal_transferring', 'enable_callback'), ('signal_not_transferring', 'disable_callback')):
         g = ctx.func(f'utils.ReadFileChunk.{meth}')
@@ -196,8 +202,10 @@ def aggregation_is_flushed(ctx):
                     var = c._parent.targets[0].id if isinstance(c._parent, ast.Assign) and isinstance(c._parent.targets[0], ast.Name) else None
                     cc = [x for x in own_calls(m.node) if (dotted(x.func) or '') == 'self._get_close_callbacks' and x.args and norm(x.args[0]) == var]
                     ccv = cc[0]._parent.targets[0].id if cc and isinstance(cc[0]._parent, ast.Assign) else None
-                    users = [x for x in own_calls(m.node) if any(k.arg == 'callbacks' and norm(k.value) == var for k in x.keywords) or
-                             (len(x.args) >= 2 and var in [norm(a) for a in x.args] and (dotted(x.func) or '').endswith('_wrap_data'))]
+                    # a body factory receives the callbacks (by keyword or position): any call other than the close-callback
+                    # helper itself that is handed the callbacks variable
+                    users = [x for x in own_calls(m.node) if x not in cc and x is not c
+                             and var in [norm(a) for a in list(x.args) + [k.value for k in x.keywords]]]
                     ok = var is not None and ccv is not None and bool(users) and all(
                         any(k.arg == 'close_callbacks' and norm(k.value) == ccv for k in x.keywords) or ccv in [norm(a) for a in x.args] for x in users)
                     same_scope = bool(users) and all(q.in_loop(x) is q.in_loop(c) for x in users)
